@@ -56,8 +56,11 @@ int enqueue_block(sqfs_block_processor_t *proc, sqfs_block_t *blk)
 	    proc->file != NULL && proc->uncmp != NULL) {
 		sqfs_block_t *copy = alloc_flex(sizeof(*copy), 1, blk->size);
 
-		if (copy == NULL)
+		if (copy == NULL) {
+			blk->next = proc->free_list;
+			proc->free_list = blk;
 			return SQFS_ERROR_ALLOC;
+		}
 
 		copy->size = blk->size;
 		copy->index = blk->index;
